@@ -2,6 +2,10 @@
 //! years elapsed, quarter, common-era year, month lengths — through chrono's public API.
 use crate::val::*;
 use chrono::{DateTime, Datelike, FixedOffset, Month, Months, NaiveDate, NaiveDateTime, Weekday};
+use std::collections::hash_map::DefaultHasher;
+use std::hash::{Hash, Hasher};
+
+fn h<T: Hash>(x: &T) -> u64 { let mut s = DefaultHasher::new(); x.hash(&mut s); s.finish() }
 
 fn with_date<D: Datelike>(d: &D, field: &str, arg: &Val) -> Option<Option<D>> {
     Some(match field {
@@ -48,6 +52,26 @@ pub fn dispatch(op: &str, a: &[Val]) -> Option<Val> {
             let f = a.get(0)?.str()?; let d = dec_ndt(a.get(1)?)?;
             Some(vopt(with_date(&d, f, a.get(2)?)?, enc_ndt))
         })(),
+        // operator month stepping and the provided Datelike methods on NaiveDateTime, Months accessor,
+        // equality / hashing of NaiveWeek
+        "d8.ndt.opaddm" => (|| Some(enc_ndt(dec_ndt(a.get(0)?)? + Months::new(a.get(1)?.u32()?))))(),
+        "d8.ndt.opsubm" => (|| Some(enc_ndt(dec_ndt(a.get(0)?)? - Months::new(a.get(1)?.u32()?))))(),
+        "d8.ndt.prov" => (|| {
+            let n = dec_ndt(a.get(0)?)?;
+            let (ce, y) = n.year_ce();
+            Some(vtup(vec![vint(n.quarter()), vbool(ce), vint(y), vint(n.num_days_in_month()),
+                           vint(n.year()), vint(n.month()), vint(n.month0()), vint(n.day()), vint(n.day0()),
+                           vint(n.ordinal()), vint(n.ordinal0()), enc_wd(n.weekday())]))
+        })(),
+        "d8.months_u32" => (|| Some(vint(Months::new(a.get(0)?.u32()?).as_u32())))(),
+        "d8.weq" => (|| {
+            let w1 = dec_date(a.get(0)?)?.week(dec_wd(a.get(1)?)?);
+            let w2 = dec_date(a.get(2)?)?.week(dec_wd(a.get(3)?)?);
+            Some(vtup(vec![vbool(w1 == w2), vbool(w1 != w2), vbool(h(&w1) == h(&w2))]))
+        })(),
+        #[allow(deprecated)]
+        "d8.pnthwd" => (|| Some(enc_date(
+            NaiveDate::from_weekday_of_month(a.get(0)?.i32()?, a.get(1)?.u32()?, dec_wd(a.get(2)?)?, a.get(3)?.u8()?))))(),
         _ => return None,
     };
     Some(r.unwrap_or_else(bad))
